@@ -367,7 +367,45 @@ def rule_small_kernels(ctx):
               "posterior genotypes are not written to their G-index (or unknown alleles are not skipped)", f.where())
 
 
+def rule_frequency_gate(ctx):
+    """every INFO field that sumarise_vcf_record derives from the per-sample posterior frequency fields (FORMAT ACP / AFP / AOP) is
+    in the set that makes the programs compute those fields (require_AFP); otherwise the field requested on its own is summed over
+    an empty table and written as the scalar 0 whatever its declared Number.  The tally behind AC / AN / UAN is not a narrow
+    integer (one allele can have more than 127 copies in a cohort)."""
+    import ast as _ast
+    BASE = 'mchap.application.baseclass.program.'
+    g = ctx.func(BASE + 'require_AFP')
+    sets = [n for n in _ast.walk(g.node) if isinstance(n, _ast.Set)]
+    gate_info = {_ast.unparse(e) for st in sets for e in st.elts if _ast.unparse(e).startswith('INFO.')}
+    gate_format = {_ast.unparse(e) for st in sets for e in st.elts if _ast.unparse(e).startswith('FORMAT.')}
+    ctx.need(gate_info and gate_format, f"{g.qname}: the two sets of fields that require posterior frequencies were not found")
+    f = ctx.func(BASE + 'sumarise_vcf_record')
+    derived = {}
+    for n in _ast.walk(f.node):
+        if isinstance(n, _ast.If) and isinstance(n.test, _ast.Compare) and len(n.test.ops) == 1 and isinstance(n.test.ops[0], _ast.In) \
+                and _ast.unparse(n.test.left).startswith('INFO.') and _ast.unparse(n.test.comparators[0]).endswith('infofields'):
+            reads = {_ast.unparse(m.slice) for st in n.body for m in _ast.walk(st)
+                     if isinstance(m, _ast.Subscript) and _ast.unparse(m.value).endswith('sampledata')}
+            if reads & {'FORMAT.ACP', 'FORMAT.AFP', 'FORMAT.AOP'}:
+                derived[_ast.unparse(n.test.left)] = sorted(reads)
+    ctx.minimum('R07.6', len(derived), 4)
+    for fld, reads in sorted(derived.items()):
+        ctx.check(fld in gate_info, 'R07.6/frequency-gate', f.construct(fld), f"derived from {', '.join(reads)}; requesting it makes the programs compute them",
+                  f"{fld} is derived from {', '.join(reads)} but is not in the set of require_AFP(): requested on its own it is the sum over an empty table (scalar 0)", g.where())
+    ctx.check({'FORMAT.ACP', 'FORMAT.AFP', 'FORMAT.AOP'} <= gate_format, 'R07.6/frequency-gate', g.construct('FORMAT fields'), "FORMAT ACP, AFP and AOP each make the programs compute posterior frequencies",
+              f"require_AFP() no longer reacts to {sorted({'FORMAT.ACP', 'FORMAT.AFP', 'FORMAT.AOP'} - gate_format)}", g.where())
+    from .c15 import narrow_dtype
+    allocs = [n for n in _ast.walk(f.node) if isinstance(n, _ast.Assign) and isinstance(n.value, _ast.Call) and _ast.unparse(n.value.func).split('.')[-1] in ('zeros', 'empty', 'full')
+              and any(isinstance(m, _ast.AugAssign) and isinstance(m.target, _ast.Subscript) and _ast.unparse(m.target.value) == _ast.unparse(n.targets[0]) for m in _ast.walk(f.node))]
+    ctx.need(allocs, f"{f.qname}: the allele tally was not found")
+    for a in allocs:
+        dt = narrow_dtype(a.value)
+        ctx.check(dt is None, 'R07.6/tally-width', f.construct('allele tally'), "the allele tally is a full-width integer",
+                  f"the allele tally behind AC / AN / UAN is {dt}: more than 127 copies of one allele in a cohort wrap silently", f.where(a))
+
+
 def run(ctx):
+    rule_frequency_gate(ctx)
     rule_small_kernels(ctx)
     rule_cardinality(ctx)
     rule_declared(ctx)
